@@ -53,6 +53,27 @@ func genC07(seed uint64, idx int, tier string) *Scenario {
 		class = "unwritable-at-start"
 		sc.Faults = []string{"unwritable-destination"}
 	}
+	if !badStart && r.Chance(0.3) {
+		// history: an earlier run of the sensor left a log file behind (smaller than, or exactly at, the limit)
+		var prior []int
+		total := 0
+		for k := r.Range(1, 6); k > 0; k-- {
+			l := c07Overhead + r.Range(0, maxsize/3)
+			if maxsize > 4096 {
+				l = c07Overhead + r.Range(0, 2000)
+			}
+			if total+l > maxsize {
+				break
+			}
+			prior = append(prior, l)
+			total += l
+		}
+		if len(prior) > 0 && r.Chance(0.25) && maxsize <= 4096 && maxsize-total >= 0 {
+			prior[len(prior)-1] += maxsize - total // exactly at the limit
+		}
+		sc.Params["prior"] = prior
+		class += "+restart"
+	}
 	serial := 0
 	ns := r.Range(1, 3)
 	gaps := []int64{0, 0, 0, 10, 999, 1000, 1001, 1500, 5000}
@@ -190,6 +211,23 @@ func runC07(t *testing.T, sc *Scenario) Result {
 			st.logdir = filepath.Join(dir, "log")
 			os.MkdirAll(st.logdir, 0755)
 			os.WriteFile(filepath.Join(dir, "notadir"), []byte("x"), 0644)
+			// lines of an earlier run (written the way the channel writes them: one JSON object per line)
+			if pr, ok := sc.Params["prior"].([]interface{}); ok && len(pr) > 0 {
+				var buf bytes.Buffer
+				for i, v := range pr {
+					l := int(v.(float64))
+					key := fmt.Sprintf("prior:%d", i)
+					line := fmt.Sprintf(`{"category":"c07","date":"2000-01-01T00:00:00Z","pad":"","serial":%q,"token":"earlier-run-token-0"}`, key)
+					if pad := l - len(line) - 1; pad > 0 {
+						line = strings.Replace(line, `"pad":""`, `"pad":"`+strings.Repeat("p", pad)+`"`, 1)
+					}
+					buf.WriteString(line + "\n")
+					st.sent[key] = -1
+					st.returned++
+				}
+				os.WriteFile(filepath.Join(st.logdir, "events.log"), buf.Bytes(), 0644)
+				res.probe("restart-on-existing-file", 1)
+			}
 		}
 		if err := w.bootServer(sc.Config); err != nil {
 			w.Obs.BootErr = err.Error()
